@@ -282,3 +282,36 @@ Theorem C03_display_parse_roundtrip_rel : forall n, valid_rel n ->
   rel_from_chars None (display_rel n) = Ok (wire_rel n).
 Proof. exact display_parse_roundtrip_rel. Qed.
 Print Assumptions C03_display_parse_roundtrip_rel.
+
+(* to_name / flatten_into / to_cow / compose of a ParsedName, fast path included *)
+Theorem C03_parsed_flatten_valid : forall m pos lim p,
+  parse_ref m pos lim = Ok p -> (lim <= mlen m)%N -> wf_bytes m ->
+  exists n, valid_abs n /\ parsed_flatten m p = Ok (wire_abs n) /\ parsed_to_name m p = Ok (wire_abs n) /\
+            N.of_nat (length (wire_abs n)) = pn_len p.
+Proof. exact parsed_flatten_valid. Qed.
+Print Assumptions C03_parsed_flatten_valid.
+
+(* ---- chain_root / UncertainName::chain *)
+Theorem C03_chain_root_spec : forall n, valid_rel n ->
+  n_chain_root (wire_rel n) = Ok (wire_abs n) /\ valid_abs n.
+Proof. exact chain_root_spec. Qed.
+Print Assumptions C03_chain_root_spec.
+
+Theorem C03_chain_root_255_panics : forall w, length w = 255%nat -> n_chain_root w = Panic 14.
+Proof. exact chain_root_255_panics. Qed.
+Print Assumptions C03_chain_root_255_panics.
+
+Theorem C03_unc_chain_valid : forall l r w, valid_abs r ->
+  (valid_abs l /\ unc_chain true (wire_abs l) (wire_abs r) = Ok w -> w = wire_abs l) /\
+  (valid_rel l /\ unc_chain false (wire_rel l) (wire_abs r) = Ok w -> w = wire_abs (l ++ r) /\ valid_abs (l ++ r)).
+Proof. exact unc_chain_valid. Qed.
+Print Assumptions C03_unc_chain_valid.
+
+(* ---- names scanned from zone-file text (model of scan_name / convert_label:
+   C07/Model.v): every returned name is the wire form of a valid absolute name *)
+From DV Require C07.Model C03.ProofsZonefile.
+Theorem C03_scan_name_valid : forall origin s n s',
+  (forall o, origin = Some o -> exists m, valid_abs m /\ o = wire_abs m) -> wf_bytes (C07.Model.buf s) ->
+  C07.Model.scan_name origin s = Ok (n, s') -> exists k, valid_abs k /\ n = wire_abs k.
+Proof. exact C03.ProofsZonefile.scan_name_valid. Qed.
+Print Assumptions C03_scan_name_valid.
